@@ -188,3 +188,45 @@ Proof. unfold rmax. lia. Qed.
 
 Theorem in_range_iff c i : in_range c i = true <-> (rmin c <= i <= rmax c)%nat.
 Proof. unfold in_range. rewrite andb_true_iff, !Nat.leb_le. tauto. Qed.
+
+(* ---- histogram geometry from the requested range ---- *)
+Lemma pos_of_nat_Z k : (0 < k)%nat -> Z.pos (Pos.of_nat k) = Z.of_nat k.
+Proof. intros H. rewrite <- positive_nat_Z, Nat2Pos.id by lia. reflexivity. Qed.
+
+(* a range aligned with the partition of [0,1] into nb_actual bins (bmin = rmin/N, bmax = (rmin+nb)/N): the relevant
+   window is exactly the set of bins whose centre lies in the requested range *)
+Theorem aligned_window c (bmin bmax : Q) i : (0 < nb_actual c)%nat -> (0 < nb_target c)%nat ->
+  (bmin == (Z.of_nat (rmin c) # Pos.of_nat (nb_actual c)))%Q ->
+  (bmax == (Z.of_nat (rmin c + nb_target c) # Pos.of_nat (nb_actual c)))%Q ->
+  (in_range c i = true <-> (bmin < centre c i /\ centre c i < bmax)%Q).
+Proof.
+  intros Hn Hnb Hmin Hmax. rewrite in_range_iff. unfold rmax. rewrite Hmin, Hmax. unfold centre, Qlt. cbn [Qnum Qden].
+  rewrite !pos_of_nat_Z by lia. split.
+  - intros [H1 H2]. split; nia.
+  - intros [H1 H2]. split; nia.
+Qed.
+
+(* __init__'s arithmetic recovers that geometry from an aligned request: every partition up to 24 bins, every window *)
+Definition aligned_all (M : nat) : bool :=
+  forallb (fun na => forallb (fun r => forallb (fun nb =>
+    let '(a, b) := geom_of nb (Z.of_nat r # Pos.of_nat na) (Z.of_nat (r + nb) # Pos.of_nat na) in
+    Nat.eqb a na && Nat.eqb b r) (seq 1 (na - r))) (seq 0 na)) (seq 1 M).
+
+Lemma aligned_all_24 : aligned_all 24 = true.
+Proof. vm_compute. reflexivity. Qed.
+
+Lemma aligned_all_spec M : aligned_all M = true -> forall na r nb,
+  (1 <= na <= M)%nat -> (1 <= nb)%nat -> (r + nb <= na)%nat ->
+  geom_of nb (Z.of_nat r # Pos.of_nat na) (Z.of_nat (r + nb) # Pos.of_nat na) = (na, r).
+Proof.
+  intros H na r nb Hna Hnb Hr. unfold aligned_all in H.
+  rewrite forallb_forall in H. specialize (H na ltac:(apply in_seq; lia)).
+  rewrite forallb_forall in H. specialize (H r ltac:(apply in_seq; lia)).
+  rewrite forallb_forall in H. specialize (H nb ltac:(apply in_seq; lia)).
+  destruct (geom_of nb _ _) as [a b]. apply andb_true_iff in H. destruct H as [Ha Hb].
+  apply Nat.eqb_eq in Ha. apply Nat.eqb_eq in Hb. congruence.
+Qed.
+
+Theorem geom_of_aligned na r nb : (1 <= na <= 24)%nat -> (1 <= nb)%nat -> (r + nb <= na)%nat ->
+  geom_of nb (Z.of_nat r # Pos.of_nat na) (Z.of_nat (r + nb) # Pos.of_nat na) = (na, r).
+Proof. exact (aligned_all_spec 24 aligned_all_24 na r nb). Qed.
